@@ -35,6 +35,7 @@ WhyLeaf(c) ==
   IF Cardinality({k \in 1..Len(Leaves(c.tree)) : Leaves(c.tree)[k] = c.lf}) = 1 /\ c.cb # cb THEN "control-block-bytes"
   ELSE IF ~p.ok \/ ~c.parse_ok THEN "control-block-parse"
   ELSE IF c.reser # c.cb THEN "control-block-parse-serialise-not-identity"
+  ELSE IF ~c.parsed_equals_built THEN "parsed-control-block-does-not-compare-equal-to-the-one-built"
   ELSE IF Take(c.cb, 33) # Take(cb, 33) THEN "control-block-version-parity-or-internal-key"
   ELSE IF RootFromPath(HO(c), LeafHash(HO(c), c.lf), p.path, 1) # c.root THEN "control-block-path-does-not-prove-the-leaf"
   ELSE IF c.ext_x # c.qg_x \/ c.ext_parity # c.qg_parity THEN "control-block-does-not-recompute-output-key"
